@@ -108,6 +108,17 @@ CHECKS["C16"] = dict(
     note="partial: completeness of the small list's search for valid pointers is at correspondence level. Two genuine defects found and "
          "repaired (cursor overwritten before the report; non-terminating search for a foreign pointer on a one-chunk list).",
     technique="Lean 4 proof (search correctness/termination, case analysis of the checks) + child-process correspondence")
+CHECKS["C17"] = dict(
+    text="Lean theorems over a byte-level model of debug_fill_new/debug_fill_free/debug_is_filled and the [fence|node|fence] layout: for "
+         "every node size, fence size and memory content, a dirty byte at any offset of either fence (any value != 0xFD) makes "
+         "deallocate_node call the overflow handler, the first call naming the lowest dirty fence byte; clean fences are never reported "
+         "(in-bounds writes, any content); at most one call per fence; a returned node carries new_memory on every byte, fences "
+         "fence_memory, nothing outside the raw block is written; a released node carries freed_memory on every byte and nothing else "
+         "changes. Tied by an exhaustive sweep on heap/malloc/new/virtual (every fence offset x byte values x node sizes) compared with the "
+         "model's handler-call list and an independent expectation, and by pattern oracles on pools/collections/stacks.",
+    note="partial: pool/stack fill patterns are oracles on the real code (sampled histories), not theorems; fence sizes 0 (rwdi), 8 (dbg) "
+         "and 16 (fence16) are run; low-level fences are max_alignment/page-size whenever the option is non-zero.",
+    technique="Lean 4 proof (byte-level model, induction over the scan) + exhaustive fence sweep correspondence")
 NOT_YET = {}
 
 def main():
